@@ -24,9 +24,3 @@ Fixpoint lookup_shape (n : string) (l : list (string * shape)) : option shape :=
   | [] => None
   | (k, s) :: r => if String.eqb k n then Some s else lookup_shape n r
   end.
-
-(** Known finding (known_findings.d/C02.json): WalletCommitmentTrees::remove_retained_checkpoints_below
-    is not overridden by the connection-owning WalletDb, so the trait default runs: one
-    transaction per pool (with_sapling_tree_mut, with_orchard_tree_mut, with_ironwood_tree_mut). *)
-Definition known_nonatomic (m : string) : bool :=
-  String.eqb m "WalletCommitmentTrees::remove_retained_checkpoints_below".
